@@ -274,7 +274,8 @@ pub fn evaluate_isolated(prop: Prop, trace: &Trace) -> Isolated {
             None
         }
         Status::Exited(c) if c == simalloc::EXIT_HARNESS_LIMIT => {
-            res.herr = Some("the run outgrew the simulated heap (arena or block table exhausted)".to_string());
+            let req = text.lines().find_map(|l| l.strip_prefix("F harness-limit request=")).unwrap_or("?");
+            res.herr = Some(format!("the run outgrew the simulated heap (arena or block table exhausted; last request {req} bytes)"));
             None
         }
         Status::Exited(c) => {
